@@ -165,8 +165,14 @@ def _is_sub0(n, var=None):
     return var is None or n.value.id == var
 
 
+_SUBST = {}
+_ML_NAME = ["_multiline"]
+
+
 def _cond(n, var):
     """Translate a test of `_escape` into a Lean `Cond` term; refuse anything unknown."""
+    if isinstance(n, ast.Name) and n.id in _SUBST:
+        return _cond(_SUBST[n.id], var)
     if isinstance(n, ast.BoolOp):
         parts = [_cond(v, var) for v in n.values]
         op = ".and" if isinstance(n.op, ast.And) else ".or"
@@ -207,7 +213,7 @@ def _cond(n, var):
 def _act(n, var):
     if isinstance(n, ast.Name) and n.id == var:
         return ".asIs"
-    if (isinstance(n, ast.Call) and isinstance(n.func, ast.Name) and n.func.id == "_multiline"
+    if (isinstance(n, ast.Call) and isinstance(n.func, ast.Name) and n.func.id == _ML_NAME[0]
             and len(n.args) == 1 and isinstance(n.args[0], ast.Name) and n.args[0].id == var):
         return ".multiline"
     if _const_str(n) is not None:
@@ -229,12 +235,20 @@ def _single_return(body):
     return stmts[0].value
 
 
-def _reader_tests(tree):
-    """Every test of the first character / a prefix of a line or word in cif.py outside `_escape`."""
+def _reader_tests(tree, escape_name, canon):
+    """Every test of the first character / a prefix of a line or word in cif.py outside the quoting decision;
+    functions are reported under their canonical (structural) names."""
     tests = []
 
+    class _Named:
+        def __init__(self, fn):
+            self.fn, self.name = fn, canon.get(fn.name, fn.name)
+
     def visit_fn(fn):
-        for n in ast.walk(fn):
+        return _visit(fn, _Named(fn))
+
+    def _visit(fn_ast, fn):
+        for n in ast.walk(fn_ast):
             if isinstance(n, ast.Compare) and len(n.ops) == 1 and _is_sub0(n.left):
                 r = n.comparators[0]
                 if isinstance(n.ops[0], (ast.Eq, ast.NotEq)) and _const_str(r) is not None:
@@ -259,7 +273,7 @@ def _reader_tests(tree):
                     raise ValueError(f"unrecognised startswith test in {fn.name}: {ast.unparse(n)}")
 
     for node in ast.walk(tree):
-        if isinstance(node, ast.FunctionDef) and node.name != "_escape":
+        if isinstance(node, ast.FunctionDef) and node.name != escape_name:
             # only the function's own statements (nested defs are visited on their own)
             visit_fn(node)
     # dedupe, keep order
@@ -275,32 +289,41 @@ def gen_lean():
     from common import paths
     path = os.path.join(paths.SRC, "biotite/structure/io/pdbx/cif.py")
     tree = ast.parse(open(path).read())
-    fns = [n for n in tree.body if isinstance(n, ast.FunctionDef) and n.name == "_escape"]
-    if len(fns) != 1:
-        raise ValueError("_escape not found in cif.py")
-    fn = fns[0]
+    from props import c06_gen
+    roles = c06_gen.cif_roles(tree)        # private helpers are found by their structure, not by their names
+    fn, mlfn = roles["_escape"], roles["_multiline"]
     var = fn.args.args[0].arg
-    stmts = [s for s in fn.body if not (isinstance(s, ast.Expr) and isinstance(s.value, ast.Constant))]
-    if len(stmts) != 1 or not isinstance(stmts[0], ast.If):
-        raise ValueError("_escape is not a single if/elif chain")
-    branches = []
-    node = stmts[0]
-    while True:
-        branches.append((_cond(node.test, var), _act(_single_return(node.body), var)))
-        if len(node.orelse) == 1 and isinstance(node.orelse[0], ast.If):
-            node = node.orelse[0]
-        else:
-            default = _act(_single_return(node.orelse), var)
-            break
-    ml = [n for n in tree.body if isinstance(n, ast.FunctionDef) and n.name == "_multiline"]
-    if len(ml) != 1:
-        raise ValueError("_multiline not found")
-    mret = _single_return(ml[0].body)
-    mvar = ml[0].args.args[0].arg
+    _SUBST.clear()
+    _ML_NAME[0] = mlfn.name
+
+    def chain(stmts):
+        """if/elif chains and guard clauses with early returns alike: [(test, result)], default"""
+        branches = []
+        for st in stmts:
+            if isinstance(st, ast.Expr) and isinstance(st.value, ast.Constant):
+                continue
+            if (isinstance(st, ast.Assign) and len(st.targets) == 1 and isinstance(st.targets[0], ast.Name)
+                    and st.targets[0].id != var):
+                _SUBST[st.targets[0].id] = st.value          # a hoisted test
+                continue
+            if isinstance(st, ast.Return):
+                return branches, _act(st.value, var)
+            if isinstance(st, ast.If):
+                branches.append((_cond(st.test, var), _act(_single_return(st.body), var)))
+                if st.orelse:
+                    more, default = chain(st.orelse)
+                    return branches + more, default
+                continue
+            raise ValueError("unrecognised statement in the quoting decision: " + ast.unparse(st))
+        raise ValueError("the quoting decision does not end with a return")
+    branches, default = chain(fn.body)
+    mret = _single_return(mlfn.body)
+    mvar = mlfn.args.args[0].arg
     if not (isinstance(mret, ast.BinOp) and isinstance(mret.left, ast.BinOp) and _const_str(mret.left.left) is not None
             and isinstance(mret.left.right, ast.Name) and mret.left.right.id == mvar and _const_str(mret.right) is not None):
-        raise ValueError("_multiline is not prefix + value + suffix")
-    tests = _reader_tests(tree)
+        raise ValueError("the multi-line helper is not prefix + value + suffix")
+    canon = {f.name: role.split(".")[-1] for role, f in roles.items()}
+    tests = _reader_tests(tree, fn.name, canon)
     if not tests:
         raise ValueError("no reader first-character tests found in cif.py")
     body = [
@@ -1030,6 +1053,18 @@ def _err(e):
     return "ERR:" + type(e).__name__
 
 
+_PRIVATE = {}
+
+
+def _private(role):
+    """actual name of a module-private helper of cif.py, as the extractor found it by structure"""
+    if not _PRIVATE:
+        from common import paths
+        from props import c06_gen
+        _PRIVATE.update(c06_gen.private_names(paths.SRC))
+    return _PRIVATE[role]
+
+
 def _mk_col(flav, vals, mask):
     """(masked column, its data object) built in memory."""
     import numpy as np
@@ -1158,9 +1193,9 @@ def _run_impl(case):
         w = op.split()
         try:
             if w[0] == "esc":
-                out.append("ok " + enc(C._escape(dec(w[1]))))
+                out.append("ok " + enc(getattr(C, _private("_escape"))(dec(w[1]))))
             elif w[0] == "split":
-                out.append("ok " + enc_list(list(C._split_one_line(dec(w[1])))))
+                out.append("ok " + enc_list(list(getattr(C, _private("_split_one_line"))(dec(w[1])))))
             elif w[0] == "sercat":
                 cols = dec_cols(w[2])
                 cat = pdbx.CIFCategory({k: pdbx.CIFColumn(vs) for k, vs in cols}, name=dec(w[1]))
